@@ -9,6 +9,7 @@ import (
 	"net/http/httptest"
 	"net/url"
 	"strings"
+	"sync"
 	"time"
 
 	"github.com/golang-jwt/jwt/v4"
@@ -43,6 +44,7 @@ var httpPaths = [][]string{
 	{"kapacitor", "v1", "s", ""},
 	{"kapacitor", "v1", "s"},
 	{"kapacitor", "v1", "s", "a", "..", "b"},
+	{"kapacitor", "v1", "s", "b"},
 }
 var httpCreds = []string{"none", "basic_ok", "basic_badpw", "basic_nouser", "basic_emptyuser", "basic_admin",
 	"query_ok", "query_badpw", "query_nopw", "badbasic_query_ok",
@@ -56,7 +58,7 @@ var testPatterns = []string{"/t", "/t/x", "/s/"} // "/s/" is a subtree pattern
 // grant paths of the HTTP universe (MCHttpGrant); the last one is "the resource of
 // database d" and is spelled by the real auth.DatabaseResource.
 func httpGrantPaths() []string {
-	return []string{"/", "/api", "/api/t", "/api/t/x", "/api/write", "/api/preview", "/api/s", "/database", auth.DatabaseResource("d")}
+	return []string{"/", "/api", "/api/t", "/api/t/x", "/api/write", "/api/preview", "/api/s", "/api/s/a", "/database", auth.DatabaseResource("d")}
 }
 
 type httpReq struct {
@@ -292,73 +294,128 @@ type httpCfg struct{ auth, pprof bool }
 // pprof off) every grant table of the HTTP universe up to the bound; for the
 // other configurations the empty table.  Every request of the universe.
 func RunHTTP(r *rt.Run) error {
-	maxGranted, parts := 1, 1
+	// quick: at most 2 carriers, one an ancestor of the other (a grant above/below another);
+	// thorough: any 2 carriers
+	maxGranted, parts, chainOnly := 2, 4, true
 	if r.Thorough() {
-		maxGranted, parts = 2, 8
+		maxGranted, parts, chainOnly = 2, 8, false
 	}
 	gp := httpGrantPaths()
+	// ancestor relation between grant resources; the last entry (resource of database d) is below /database
+	isAnc := func(a, b int) bool {
+		pa, pb := gp[a], gp[b]
+		if b == len(gp)-1 {
+			pb = "/database/d"
+		}
+		if a == len(gp)-1 {
+			pa = "/database/d"
+		}
+		return pa == "/" || pa == pb || strings.HasPrefix(pb, pa+"/")
+	}
+	chain := func(codes []int) bool {
+		for i, ci := range codes {
+			for j, cj := range codes {
+				if i < j && ci != 0 && cj != 0 && !isAnc(i, j) && !isAnc(j, i) {
+					return false
+				}
+			}
+		}
+		return true
+	}
 	np, nopt := len(gp), len(optMasks)
 	total := pow(nopt+1, np)
 	reqs := httpReqSeq()
-	decor := credDecor()
 	cfgs := []httpCfg{{true, false}, {true, true}, {false, false}}
-	m := &rt.Meta{Property: "C20", Tier: r.Tier, Seed: r.Seed, Exhaustive: true}
-	lines := 0
+	type partOut struct {
+		t                       *rt.Trace
+		lines, events, distinct int
+		samples                 [][]rt.M
+	}
+	outs := make([]*partOut, parts)
+	var wg sync.WaitGroup
+	sem := make(chan struct{}, 4)
 	for k := 1; k <= parts; k++ {
 		t, err := rt.NewTrace(fmt.Sprintf("%s/http-%02d.ndjson", r.OutDir, k))
 		if err != nil {
 			return err
 		}
-		lo, hi := (k-1)*total/parts, k*total/parts
-		t.Reset(rt.M{"part": k, "parts": parts, "tier": r.Tier})
-		rl := make([][]any, len(reqs))
-		urls := make([]string, len(reqs))
-		for i, q := range reqs {
-			rl[i] = []any{q.m, q.p, q.c, q.db}
-			urls[i] = render(q.p)
-		}
-		t.Event("HttpReqs", rt.M{"reqs": rl, "urls": urls, "grants": gp})
-		for ci, c := range cfgs {
-			g := newRig(c.auth, c.pprof)
-			for rank := lo; rank < hi; rank++ {
-				codes := codesOfRank(rank, np, nopt)
-				ng := granted(codes)
-				if ng > maxGranted || (ci > 0 && ng > 0) {
-					continue
-				}
-				masks := masksOfCodes(codes)
-				privs := map[string][]auth.Privilege{}
-				for j, mk := range masks {
-					if mk >= 0 {
-						privs[gp[j]] = privsOfMask(mk)
+		po := &partOut{t: t}
+		outs[k-1] = po
+		wg.Add(1)
+		go func(k int, po *partOut) {
+			defer wg.Done()
+			sem <- struct{}{}
+			defer func() { <-sem }()
+			t := po.t
+			decor := credDecor()
+			t.Reset(rt.M{"part": k, "parts": parts, "tier": r.Tier})
+			rl := make([][]any, len(reqs))
+			urls := make([]string, len(reqs))
+			for i, q := range reqs {
+				rl[i] = []any{q.m, q.p, q.c, q.db}
+				urls[i] = render(q.p)
+			}
+			t.Event("HttpReqs", rt.M{"reqs": rl, "urls": urls, "grants": gp})
+			for ci, c := range cfgs {
+				g := newRig(c.auth, c.pprof)
+				for rank := k - 1; rank < total; rank += parts {
+					// cheap pre-filter on the number of carriers before decoding
+					codes := codesOfRank(rank, np, nopt)
+					ng := granted(codes)
+					if ng > maxGranted || (ci > 0 && ng > 0) || (chainOnly && !chain(codes)) {
+						continue
+					}
+					masks := masksOfCodes(codes)
+					privs := map[string][]auth.Privilege{}
+					for j, mk := range masks {
+						if mk >= 0 {
+							privs[gp[j]] = privsOfMask(mk)
+						}
+					}
+					g.fa.u = auth.NewUser("u", nil, false, privs)
+					out := make([]int, len(reqs))
+					for i, q := range reqs {
+						out[i] = g.do(q, decor)
+					}
+					t.Event("Http", rt.M{"auth": c.auth, "pprof": c.pprof, "g": masks, "out": out})
+					po.lines++
+					po.events += len(reqs)
+					if ng > 0 {
+						po.distinct += len(reqs)
+					}
+					if len(po.samples) < 2 && ng >= 1 && (po.lines == 3 || po.lines == 12) {
+						i := 1 + 20*po.lines
+						po.samples = append(po.samples, []rt.M{{"grants": grantsOfStr(gp, masks), "method": reqs[i].m, "path": render(reqs[i].p), "credentials": reqs[i].c, "db": concat(reqs[i].db), "status": out[i] / 100, "served": out[i] / 10 % 10}})
 					}
 				}
-				g.fa.u = auth.NewUser("u", nil, false, privs)
-				out := make([]int, len(reqs))
-				for i, q := range reqs {
-					out[i] = g.do(q, decor)
-				}
-				t.Event("Http", rt.M{"auth": c.auth, "pprof": c.pprof, "g": masks, "out": out})
-				lines++
-				m.Events += len(reqs)
-				if ng > 0 {
-					m.Distinct += len(reqs)
-				}
-				if len(m.Samples) < 2 && ng == 1 && (lines == 3 || lines == 12) {
-					i := 1 + 20*lines
-					m.Samples = append(m.Samples, []rt.M{{"grants": grantsOfStr(gp, masks), "method": reqs[i].m, "path": render(reqs[i].p), "credentials": reqs[i].c, "db": concat(reqs[i].db), "status": out[i] / 100, "served": out[i] / 10 % 10}})
-				}
 			}
-		}
-		if err := t.Close(); err != nil {
+		}(k, po)
+	}
+	wg.Wait()
+	m := &rt.Meta{Property: "C20", Tier: r.Tier, Seed: r.Seed, Exhaustive: true}
+	lines := 0
+	for _, po := range outs {
+		if err := po.t.Close(); err != nil {
 			return err
 		}
-		m.TraceFiles = append(m.TraceFiles, t.Path())
+		m.TraceFiles = append(m.TraceFiles, po.t.Path())
+		lines += po.lines
+		m.Events += po.events
+		m.Distinct += po.distinct
+		for _, s := range po.samples {
+			if len(m.Samples) < 2 {
+				m.Samples = append(m.Samples, s)
+			}
+		}
 	}
 	m.Traces = lines
-	m.Rule = fmt.Sprintf("real httpd.Handler (NewHandler + fake AuthService/PointsWriter + harness routes /t, /t/x and the subtree /s/): every request of %d methods x %d paths (canonical, '..', '.', duplicate and trailing slash, preview, write with and without base path, ping, debug/vars, unknown, root) x %d kinds of credentials (missing, basic, query, bearer JWT, subscription token; valid and invalid) plus database names on the write routes, for every grant table over %d resources with at most %d carriers (auth on) and the empty table for pprof-bypass and auth-off; distinct by construction; non-trivial = table with at least one grant",
-		len(httpMethods), len(httpPaths), len(httpCreds), np, maxGranted)
-	m.Extra = map[string]any{"http_tables": lines, "http_requests_per_table": len(reqs), "http_trace_parts": parts}
+	shape := "any two"
+	if chainOnly {
+		shape = "two only if one is an ancestor of the other"
+	}
+	m.Rule = fmt.Sprintf("real httpd.Handler (NewHandler + fake AuthService/PointsWriter + harness routes /t, /t/x and the subtree /s/): every request of %d methods x %d paths (canonical, '..', '.', duplicate and trailing slash, items below the subtree route, preview, write with and without base path, ping, debug/vars, unknown, root) x %d kinds of credentials (missing, basic, query, bearer JWT, subscription token; valid and invalid) plus database names on the write routes, for every grant table over %d resources (incl. the subtree collection /api/s and the item /api/s/a below it) with at most %d carriers (%s; auth on) and the empty table for pprof-bypass and auth-off; distinct by construction; non-trivial = table with at least one grant",
+		len(httpMethods), len(httpPaths), len(httpCreds), np, maxGranted, shape)
+	m.Extra = map[string]any{"http_tables": lines, "http_requests_per_table": len(reqs), "http_trace_parts": parts, "http_max_granted": maxGranted, "http_chain_only": chainOnly}
 	return rt.WriteMeta(r.OutDir, m)
 }
 
